@@ -129,6 +129,8 @@ func repoStatus(repo string) string {
 
 func (r *runner) repoTargets() {
 	c := r.c
+	tStart := time.Now()
+	defer func() { c.Extra("repo_own_total_wall_s", time.Since(tStart).Seconds()) }()
 	before := repoStatus(r.repo)
 	cp := filepath.Join(c.Scratch, "repocopy")
 	res := runCmd("/", r.env, 10*time.Minute, "rsync", "-a", "--exclude", ".git", r.repo+"/", cp+"/")
@@ -165,7 +167,7 @@ func (r *runner) repoTargets() {
 		dirs = append(dirs, d)
 	}
 	sort.Strings(dirs)
-	budget := c.N(1500, 30000)
+	budget := c.N(1000, 20000)
 	cache := filepath.Join(c.Scratch, "repofuzzcache")
 	tmp := filepath.Join(c.Scratch, "repotmp")
 	_ = os.MkdirAll(tmp, 0o755)
@@ -173,11 +175,11 @@ func (r *runner) repoTargets() {
 	type job struct{ dir, bin, target string }
 	var jobs []job
 	var mu sync.Mutex
-	// build one instrumented test binary per package (3 builds at a time)
-	vf.Parallel(len(dirs), 3, func(i int) {
+	// build one instrumented test binary per package
+	vf.Parallel(len(dirs), 1, func(i int) {
 		d := dirs[i]
 		bin := filepath.Join(c.Scratch, fmt.Sprintf("repo-%d.test", i))
-		b := runCmd(d, env, 40*time.Minute, "go", "test", "-c", "-fuzz=.", "-trimpath", "-vet=off", "-o", bin, ".")
+		b := runCmd(d, env, 40*time.Minute, "go", "test", "-c", "-p", "4", "-fuzz=.", "-trimpath", "-vet=off", "-o", bin, ".")
 		rel, _ := filepath.Rel(cp, d)
 		if b.timeout || b.code != 0 {
 			c.Broken("building the repository's own fuzz tests in %s failed: %s", rel, tail(b.out, 600))
@@ -189,9 +191,10 @@ func (r *runner) repoTargets() {
 		}
 		mu.Unlock()
 	})
+	c.Extra("repo_own_build_wall_s", time.Since(tStart).Seconds())
 	sort.Slice(jobs, func(i, j int) bool { return jobs[i].dir+jobs[i].target < jobs[j].dir+jobs[j].target })
 	var per []map[string]any
-	vf.Parallel(len(jobs), 3, func(i int) {
+	vf.Parallel(len(jobs), 1, func(i int) {
 		j := jobs[i]
 		rel, _ := filepath.Rel(cp, j.dir)
 		name := rel + "." + j.target
